@@ -315,6 +315,12 @@ def run_cases(seed, lo, hi, extra):
                     c["reuse"] = ("ok",) + rd.reuse()
                 except Exception as e:  # noqa
                     c["reuse"] = ("err", real.exc_sig(e))
+                # ... and then about another right document with the same left tree object (C05 on a used instance)
+                try:
+                    R3 = gen.mutate(core.rng_for(seed, "reuse3" + stream, idx), L)
+                    c["reuse3"] = ("ok", R3, rd.reuse_other(R3))
+                except Exception as e:  # noqa
+                    c["reuse3"] = ("err", real.exc_sig(e))
         except Exception as e:  # the real differ raised
             c["diff_exc"] = real.exc_sig(e)
             c["script"] = None
@@ -329,6 +335,10 @@ def run_cases(seed, lo, hi, extra):
             reqs.append(f"{nsq}diff\t{cfg}\t{lt}\t{rt}\t{sim}\t{FRESH}")
             reqs.append(f"{nsq}patch\tshipped\t{FRESH}\t{lt}\t{ss}")
             reqs.append(f"{nsq}replay\t{FRESH}\t{lt}\t{ss}")
+            if c.get("reuse3") and c["reuse3"][0] == "ok":
+                s3 = [a for a in c["reuse3"][2] if type(a).__name__ not in ("InsertNamespace", "DeleteNamespace")]
+                c["req_reuse3"] = len(reqs)
+                reqs.append(f"{nsq}replay\t{FRESH}\t{lt}\t{xt.enc_script(s3)}")
         else:
             # still ask the model what it thinks
             reqs.append(f"{nsq}diff\t{cfg}\t{lt}\t{rt}\t\t{FRESH}")
@@ -447,6 +457,26 @@ def run_cases(seed, lo, hi, extra):
                     st.failures.append({"prop": "C03", "sig": "C03/equal-documents-nonempty-script/second-diff-on-one-differ", **desc})
                 if (not eq) and not s2:
                     st.failures.append({"prop": "C03", "sig": "C03/different-documents-empty-script/second-diff-on-one-differ", **desc})
+        ru3 = c.get("reuse3")
+        if ru3 is not None:
+            st.count("reused_differ_other_right_document")
+            d3 = dict(desc, second_right=xt.to_xml(ru3[1]) if ru3[0] == "ok" else None)
+            if ru3[0] == "err":
+                st.failures.append({"prop": "C05", "sig": f"C05/reused-differ-raises/{ru3[1]}", **d3})
+            else:
+                m3 = resp[c["req_reuse3"]]
+                s3 = [a for a in ru3[2] if type(a).__name__ not in ("InsertNamespace", "DeleteNamespace")]
+                d3["script"] = xt.show_script(s3)[:30]
+                if m3.startswith("err "):
+                    _, k, err = m3.split()[:3]
+                    k = int(k)
+                    an = type(s3[k]).__name__ if k < len(s3) else "?"
+                    prop = "C04" if err in ("notFound", "ambiguous", "noIndex") else "C05"
+                    st.failures.append({"prop": prop, "sig": f"{prop}/strict-replay/{err}/{an}/second-right-document-on-one-differ", "action_index": k, **d3})
+                elif m3.startswith("ok "):
+                    dd = xt.doc_eq(xt.dec_tree(m3[3:].split(" | ", 1)[1]), ru3[1], ignored=ign)
+                    if dd:
+                        st.failures.append({"prop": "C05", "sig": "C05/strict-replay-differs-from-right/second-right-document-on-one-differ", "detail": dd, **d3})
         if eq:
             st.count("equal_pairs")
             # ---- U2eq: the oracle hypotheses of C03_equal_documents_empty_script against the real node_ratio
@@ -522,6 +552,9 @@ def run_ns_cases(seed, lo, hi, extra):
 
     tier, stream = extra
     st = core.Stats()
+    from xmldiff import diff as _diffmod
+
+    shared = _diffmod.Differ()
     for idx in range(lo, hi):
         r = core.rng_for(seed, "ns", idx)
         L, R = gen.ns_pair(r, 12 if tier == "quick" else r.choice([8, 12, 25]))
@@ -546,38 +579,49 @@ def run_ns_cases(seed, lo, hi, extra):
                 st.failures.append({"prop": "C01", "sig": "C01/patched-differs-from-right", "detail": d, **desc})
         except Exception as e:  # noqa
             st.failures.append({"prop": "C01", "sig": f"C01/patch-raises/{real.exc_sig(e)}", **desc})
-        # C04: unique resolution (counting evaluator = all xpath hits) and prefix binding
+        # the same pair through one Differ instance that lives as long as the chunk (default options): what one call
+        # announced (InsertNamespace) must be announced again for the next pair of documents
+        scripts = [(script, "", le)]
         try:
-            import copy as _copy
-
-            tree = _copy.deepcopy(le)
-            bound = {k: v for k, v in tree.nsmap.items() if k is not None}
-            p = patch.Patcher()
-            p._nsmap = dict(bound)
-            for k, a in enumerate(script):
-                an = type(a).__name__
-                if an == "InsertNamespace":
-                    bound[a.prefix] = a.uri
-                for f in ("node", "target"):
-                    path = getattr(a, f, None)
-                    if path is None:
-                        continue
-                    for pre in _PREFIX_RE.findall(path):
-                        if pre not in bound:
-                            st.failures.append({"prop": "C04", "sig": "C04/prefix-not-bound", "prefix": pre, "action_index": k, **desc})
-                    hits = tree.xpath(path, namespaces={k2: v for k2, v in bound.items() if k2})
-                    if len(hits) != 1:
-                        st.failures.append({"prop": "C04", "sig": f"C04/path-selects-{len(hits)}-nodes/{an}", "action_index": k, **desc})
-                    if not path.endswith("]"):
-                        st.failures.append({"prop": "C04", "sig": "C04/last-step-without-index", "action_index": k, **desc})
-                before = xt.canon_tree(xt.from_lxml(tree)) if an not in ("MoveNode", "InsertNamespace", "DeleteNamespace") else None
-                p.handle_action(a, tree)
-                # C17 on namespaced documents: every action but a namespace action changes the document
-                # (moves are left to the id-level replay of the namespace-free streams)
-                if before is not None and xt.canon_tree(xt.from_lxml(tree)) == before:
-                    st.failures.append({"prop": "C17", "sig": f"C17/action-changes-nothing/ns/{an}", "action_index": k, **desc})
+            le_s, re_s = xt.to_lxml(L), xt.to_lxml(R)
+            scripts.append((list(shared.diff(le_s, re_s)), "/differ-reused-across-documents", le_s))
+            st.count("ns_pairs_through_shared_differ")
         except Exception as e:  # noqa
-            st.failures.append({"prop": "C04", "sig": f"C04/replay-raises/{type(e).__name__}", **desc})
+            st.failures.append({"prop": "C04", "sig": f"C04/reused-differ-raises/{real.exc_sig(e)}", **desc})
+        for script_k, sfx, le_k in scripts:
+          desc_k = desc if not sfx else dict(desc, script=xt.show_script(script_k)[:30])
+          # C04: unique resolution (counting evaluator = all xpath hits) and prefix binding
+          try:
+              import copy as _copy
+
+              tree = _copy.deepcopy(le_k)
+              bound = {k: v for k, v in tree.nsmap.items() if k is not None}
+              p = patch.Patcher()
+              p._nsmap = dict(bound)
+              for k, a in enumerate(script_k):
+                  an = type(a).__name__
+                  if an == "InsertNamespace":
+                      bound[a.prefix] = a.uri
+                  for f in ("node", "target"):
+                      path = getattr(a, f, None)
+                      if path is None:
+                          continue
+                      for pre in _PREFIX_RE.findall(path):
+                          if pre not in bound:
+                              st.failures.append({"prop": "C04", "sig": "C04/prefix-not-bound" + sfx, "prefix": pre, "action_index": k, **desc_k})
+                      hits = tree.xpath(path, namespaces={k2: v for k2, v in bound.items() if k2})
+                      if len(hits) != 1:
+                          st.failures.append({"prop": "C04", "sig": f"C04/path-selects-{len(hits)}-nodes/{an}" + sfx, "action_index": k, **desc_k})
+                      if not path.endswith("]"):
+                          st.failures.append({"prop": "C04", "sig": "C04/last-step-without-index" + sfx, "action_index": k, **desc_k})
+                  before = xt.canon_tree(xt.from_lxml(tree)) if an not in ("MoveNode", "InsertNamespace", "DeleteNamespace") else None
+                  p.handle_action(a, tree)
+                  # C17 on namespaced documents: every action but a namespace action changes the document
+                  # (moves are left to the id-level replay of the namespace-free streams)
+                  if not sfx and before is not None and xt.canon_tree(xt.from_lxml(tree)) == before:
+                      st.failures.append({"prop": "C17", "sig": f"C17/action-changes-nothing/ns/{an}", "action_index": k, **desc_k})
+          except Exception as e:  # noqa
+              st.failures.append({"prop": "C04", "sig": f"C04/replay-raises/{type(e).__name__}" + sfx, **desc_k})
         # C18 / C02 through the formatters
         try:
             out = main.diff_trees(xt.to_lxml(L), xt.to_lxml(R), diff_options=opts, formatter=formatting.XmlDiffFormatter())
